@@ -281,8 +281,9 @@ func checkC23(c *Check) {
 	wcfgs := []wcfg{{1, 4, 3, "{1, 2, 3, 4}"}, {2, 3, 3, "{1, 2, 3, 4, 5, 6}"}, {3, 3, 2, "{1, 2, 3, 4, 5, 7, 9}"}, {4, 3, 3, "{1, 3, 4, 5, 8, 9, 12}"},
 		{8, 3, 2, "{1, 7, 8, 9, 15, 16, 17, 24}"}, {16, 2, 2, "{1, 15, 16, 17, 31, 32}"}}
 	if thorough {
-		wcfgs = []wcfg{{1, 5, 4, "{1, 2, 3, 4, 5}"}, {2, 4, 4, "{1, 2, 3, 4, 5, 6, 7, 8}"}, {3, 3, 3, "{1, 2, 3, 4, 5, 6, 7, 8, 9}"}, {4, 4, 3, "{1, 2, 3, 4, 5, 7, 8, 9, 12, 13, 16}"},
-			{8, 3, 3, "{1, 2, 7, 8, 9, 15, 16, 17, 23, 24}"}, {16, 3, 3, "{1, 15, 16, 17, 31, 32, 33, 47, 48}"}}
+		// one more element for the narrow widths; the schedule count grows with (sizes ^ chunks) and every
+		// schedule is kept until it has been replayed: larger bounds exhaust time and memory
+		wcfgs = append(wcfgs, wcfg{1, 5, 3, "{1, 2, 3, 4, 5}"}, wcfg{2, 4, 3, "{1, 2, 3, 4, 5, 6, 7, 8}"})
 	}
 	reps := 1
 	if thorough {
